@@ -4,6 +4,7 @@ import (
 	"context"
 	"errors"
 	"sync"
+	"sync/atomic"
 	"time"
 
 	"github.com/alicebob/miniredis/v2"
@@ -285,10 +286,17 @@ func NewStore(kind string, clk *VClock, abs, idle time.Duration) oidc.SessionSto
 	return oidc.NewMemoryStore(clk.OIDCClock(), abs, idle)
 }
 
+var redisPumpLag int64 // nanoseconds, worst observed delay of the real-time pump since it was started
+
+// RedisPumpLag reports the worst delay of the real-time Redis pump: if the machine is so loaded that the pump
+// falls behind, TTLs expire late and real-time verdicts about Redis are not trustworthy.
+func RedisPumpLag() time.Duration { return time.Duration(atomic.LoadInt64(&redisPumpLag)) }
+
 // RealTimeRedis makes the process-wide miniredis follow the wall clock until stop is called.
 func RealTimeRedis() (stop func()) {
 	mr, _ := Redis()
 	mr.FlushAll()
+	atomic.StoreInt64(&redisPumpLag, 0)
 	done := make(chan struct{})
 	finished := make(chan struct{})
 	go func() {
@@ -301,7 +309,11 @@ func RealTimeRedis() (stop func()) {
 			select {
 			case <-done:
 				return
-			case now := <-tk.C:
+			case <-tk.C:
+				now := time.Now()
+				if lag := int64(now.Sub(last) - 20*time.Millisecond); lag > atomic.LoadInt64(&redisPumpLag) {
+					atomic.StoreInt64(&redisPumpLag, lag)
+				}
 				mr.SetTime(now)
 				mr.FastForward(now.Sub(last))
 				last = now
